@@ -394,3 +394,53 @@ def extension_order(prop="C07"):
                     "and the correlating loop follows that order",
                witness=None if ok else {"dependency map as specified": ok_map, "order is toposort_flatten(typelist)": ok_order, "loop iterates typeorder": ok_walk,
                                         "order expression": ast.unparse(order[0].value), "loop iterates": ast.unparse(walk[0].iter)})]
+
+
+# ---------------------------------------------------------------- find_used_modules: the parent of a submodule
+def parent_submodule_block(prop="C07"):
+    """the loop `for submod in submodules` of find_used_modules that replaces the *name* of a submodule's parent by the submodule object.  A submodule name is unique
+    among the descendants of one module only (F2018 14.2.3): the parent of `submodule (m2:impl) child` is the submodule impl *of m2*.  Oracle: the first submodule
+    whose lower-cased name is the parent name and whose ancestor module has the entity's ancestor name; none found: the name stays."""
+    SI = z3.SeqSort(I)
+    NOHIT = z3.Function("PSM_NOHIT", SI, I, S, S, B)
+    UNITNAME = z3.Function("UNIT_NAME_OF", I, S)            # _unit_name(x): lower-cased name of a module given as object or still as text
+    c = base(Contract("ford.fortran_project", "find_used_modules", prop))
+    c.qual_suffix = "parent_submodule"
+    c.block_select = between("for submod in submodules", None, container="if hasattr(entity, 'parent_submodule') and entity.parent_submodule")
+    c.dropped.append("block contract: the loop `for submod in submodules` under `if hasattr(entity, 'parent_submodule') and entity.parent_submodule:` "
+                     "(parent_submodule_name / ancestor_name are computed by the two statements before it)")
+    c.fields = dict(c.fields)
+    c.fields["ancestor_module"] = "ref"
+    c.fields["parent_submodule"] = "ref"
+    c.param("entity", TRef("FortranSubmodule"))
+    c.param("parent_submodule_name", TStr())
+    c.param("ancestor_name", TStr())
+    c.param("submodules", TList("ref"))
+    c.calls["_unit_name"] = lambda eng, path, e, args, recv: SStr(UNITNAME(args[0].t))
+    c.assumed.append("_unit_name(x) is a function of x alone (uninterpreted UNIT_NAME_OF): lower-cased name of a module object or of a module name")
+    E = lambda v: V(v._e, v._e.entry)
+    hit = lambda v, x, nm, anc: z3.And(nm == LOWER(sel(H(v, "name"), x)), UNITNAME(sel(H(v, "ancestor_module"), x)) == anc)
+
+    def unfold(v):
+        e = E(v)
+        seq = v.it.seq
+        a = (e.parent_submodule_name, e.ancestor_name)
+        return [NOHIT(seq, 0, *a), NOHIT(seq, v.k + 1, *a) == z3.And(NOHIT(seq, v.k, *a), z3.Not(hit(e, seq[v.k], *a)))]
+    c.loop(0, invariants=[("no_match_so_far", lambda v: NOHIT(v.it.seq, v.k, E(v).parent_submodule_name, E(v).ancestor_name)),
+                          ("frame", lambda v: z3.And(v.it.seq == E(v).heap.list_get(E(v).val("submodules")), H(v, "name") == H(E(v), "name"), H(v, "ancestor_module") == H(E(v), "ancestor_module"),
+                                                     H(v, "parent_submodule") == H(E(v), "parent_submodule"),
+                                                     v.parent_submodule_name == E(v).parent_submodule_name, v.ancestor_name == E(v).ancestor_name))],
+           unfold=unfold, variant=lambda v: z3.Length(v.it.seq) - v.k)
+    seq0 = lambda v0: v0.heap.list_get(v0.val("submodules"))
+    c.post_facts = lambda v0: [NOHIT(seq0(v0), 0, v0.parent_submodule_name, v0.ancestor_name)]
+    j = z3.Int("j!psm")
+
+    def post(v0, res, v1):
+        seq = seq0(v0)
+        a = (v0.parent_submodule_name, v0.ancestor_name)
+        p0, p1 = sel(H(v0, "parent_submodule"), v0.entity), sel(H(v1, "parent_submodule"), v0.entity)
+        found = z3.Exists([j], z3.And(0 <= j, j < z3.Length(seq), hit(v0, seq[j], *a), NOHIT(seq, j, *a), p1 == seq[j]))
+        return z3.Or(z3.And(NOHIT(seq, z3.Length(seq), *a), p1 == p0), found)
+    c.ensures("parent_is_the_first_submodule_with_that_name_below_the_same_ancestor_module_else_unchanged", post)
+    c.no_raise = True
+    return c
